@@ -316,7 +316,7 @@ class Mono:
     if k == 'call':
       short = alg.ext_short(a[0])
       args = a[1]
-      if short in ('exp', 'sqrt', 'log', 'asarray', 'array', 'float32') and len(args) == 1:
+      if short in ('exp', 'sqrt', 'log', 'asarray', 'array', 'float32', 'arcsin', 'arctan', 'tanh', 'sinh', 'cbrt', 'rad2deg', 'deg2rad', 'float64') and len(args) == 1:
         return self.of(args[0], sg)
       if short in ('abs', 'absolute') and len(args) == 1:
         s = sg.of(args[0])
